@@ -15,7 +15,7 @@
 
    Everything int32 in the Go code is a Z here with an explicit wrap32. *)
 From Coq Require Import ZArith List Bool.
-From Tally Require Import Base.Obs Model.Varint Model.Thrift.
+From Tally Require Import Base.ObsCore Model.Varint Model.Thrift.
 Import ListNotations.
 Open Scope Z_scope.
 
